@@ -30,10 +30,13 @@ def gen(rng, i, tier):
         kind = rng.choice(KINDS)
         spin = kind in ("PUSO", "PCSO")
         uni = rng.choice(['int', 'pool'])
-        t = G.raw_terms(rng, uni, max_vars=6 if not spin else 5, max_terms=6 if not spin else 4, max_deg=5 if not spin else 4,
-                        repeats=rng.random() < 0.2)
+        for _ in range(6):
+            t = G.raw_terms(rng, uni, max_vars=6 if not spin else 5, max_terms=6 if not spin else 4, max_deg=5 if not spin else 4,
+                            repeats=rng.random() < 0.2)
+            if len({x for k, _ in t for x in k}) >= 3 or rng.random() < 0.15:
+                break
         labs0 = sorted({x for k, _ in t for x in k}, key=C.enc)
-        if len(labs0) >= 3 and rng.random() < 0.7:      # make sure something has to be reduced
+        if len(labs0) >= 3 and rng.random() < 0.85:      # make sure something has to be reduced
             k = tuple(rng.sample(labs0, rng.randint(3, min(len(labs0), 5 if not spin else 4))))
             if k not in [kk for kk, _ in t]:
                 t.append((k, G.coef(rng)))
